@@ -1,6 +1,7 @@
 package verifsim
 
 import (
+	"fmt"
 	"sort"
 	"sync"
 	"time"
@@ -64,10 +65,35 @@ type chanMode int
 
 const (
 	cmSkip    chanMode = iota // killed task: do nothing
-	cmActive                  // perform the real operation, we hold the token
+	cmActive                  // perform the real operation, we hold the token (may block: the rendezvous partner is on its way)
 	cmPassive                 // perform the real operation, then re-park
 	cmDefault                 // select: take the default branch
+	cmMust                    // perform the real operation; by the model it cannot block (buffered or closed channel)
 )
+
+// mismatch reports a disagreement between the kernel's model of a channel
+// and the real channel (a kernel defect, or a channel also used by code that
+// is not instrumented).
+func mismatch(op string, ch any, length, capacity int) {
+	s := cur
+	panic(fmt.Sprintf("verifsim: model/real channel mismatch in %s: real len=%d cap=%d; %s", op, length, capacity, s.describe()))
+}
+
+//go:norace
+func (s *Sim) describe() string {
+	d := fmt.Sprintf("running task %d, step %d;", s.running, s.steps)
+	for i := s.head; i >= 0; i = s.tasks[i].next {
+		k := &s.tasks[i]
+		d += fmt.Sprintf(" [task %d proc %d wait=%s obj#%d killed=%v rdv=%v]", k.id, k.proc, waitNames[k.wait], s.objSeq(k), k.killed, k.rdv)
+	}
+	for i := range s.objs {
+		o := &s.objs[i]
+		if o.kind == oChan {
+			d += fmt.Sprintf(" {chan#%d n=%d cap=%d closed=%d sendW=%d recvW=%d}", o.seq, o.n, o.capa, o.state, o.nSendW, o.nRecvW)
+		}
+	}
+	return d
+}
 
 //go:norace
 func (s *Sim) chanObj(p unsafe.Pointer, capa, n int) (int32, *object) {
@@ -148,12 +174,12 @@ func (s *Sim) preSend(p unsafe.Pointer, capa, n int, try bool) (chanMode, *task)
 		t.wait = wNone
 		s.reschedule()
 		if o.state == 1 {
-			return cmActive, t
+			return cmMust, t
 		}
 		if o.capa > 0 {
 			if o.n < o.capa {
 				o.n++
-				return cmActive, t
+				return cmMust, t
 			}
 			return cmDefault, t
 		}
@@ -172,11 +198,11 @@ func (s *Sim) preSend(p unsafe.Pointer, capa, n int, try bool) (chanMode, *task)
 	o.nSendW--
 	t.wait = wNone
 	if o.state == 1 {
-		return cmActive, t
+		return cmMust, t
 	}
 	if o.capa > 0 {
 		o.n++
-		return cmActive, t
+		return cmMust, t
 	}
 	q := s.partner(oi, wRecv)
 	if q == nil {
@@ -198,10 +224,10 @@ func (s *Sim) preRecv(p unsafe.Pointer, capa, n int, try bool) (chanMode, *task)
 		s.reschedule()
 		if o.capa > 0 && o.n > 0 {
 			o.n--
-			return cmActive, t
+			return cmMust, t
 		}
 		if o.state == 1 {
-			return cmActive, t
+			return cmMust, t
 		}
 		if o.capa == 0 {
 			if q := s.partner(oi, wSend); q != nil {
@@ -221,10 +247,10 @@ func (s *Sim) preRecv(p unsafe.Pointer, capa, n int, try bool) (chanMode, *task)
 	t.wait = wNone
 	if o.capa > 0 && o.n > 0 {
 		o.n--
-		return cmActive, t
+		return cmMust, t
 	}
 	if o.state == 1 {
-		return cmActive, t
+		return cmMust, t
 	}
 	q := s.partner(oi, wSend)
 	if q == nil {
@@ -248,12 +274,27 @@ func Send[T any](ch chan<- T, v T) {
 	mode, t := s.preSend(*(*unsafe.Pointer)(unsafe.Pointer(&ch)), cap(ch), len(ch), false)
 	switch mode {
 	case cmSkip:
+	case cmMust:
+		if s.sendClosed(*(*unsafe.Pointer)(unsafe.Pointer(&ch))) {
+			ch <- v // panics, as in Go
+			return
+		}
+		select {
+		case ch <- v:
+		default:
+			mismatch("send", ch, len(ch), cap(ch))
+		}
 	case cmActive:
 		ch <- v
 	case cmPassive:
 		ch <- v
 		s.reparkTask(t)
 	}
+}
+
+//go:norace
+func (s *Sim) sendClosed(p unsafe.Pointer) bool {
+	return s.objs[s.obj(p, oChan)].state == 1
 }
 
 // TrySend replaces `select { case ch <- v: A default: B }`; it reports
@@ -270,6 +311,17 @@ func TrySend[T any](ch chan<- T, v T) bool {
 	}
 	mode, _ := s.preSend(*(*unsafe.Pointer)(unsafe.Pointer(&ch)), cap(ch), len(ch), true)
 	switch mode {
+	case cmMust:
+		if s.sendClosed(*(*unsafe.Pointer)(unsafe.Pointer(&ch))) {
+			ch <- v
+			return true
+		}
+		select {
+		case ch <- v:
+		default:
+			mismatch("select-send", ch, len(ch), cap(ch))
+		}
+		return true
 	case cmActive:
 		ch <- v
 		return true
@@ -305,6 +357,13 @@ func Recv2[T any](ch <-chan T) (T, bool) {
 	}
 	mode, t := s.preRecv(*(*unsafe.Pointer)(unsafe.Pointer(&ch)), cap(ch), len(ch), false)
 	switch mode {
+	case cmMust:
+		select {
+		case v, ok := <-ch:
+			return v, ok
+		default:
+			mismatch("receive", ch, len(ch), cap(ch))
+		}
 	case cmActive:
 		v, ok := <-ch
 		return v, ok
@@ -330,7 +389,15 @@ func TryRecv[T any](ch <-chan T) (v T, ok bool, selected bool) {
 		}
 	}
 	mode, _ := s.preRecv(*(*unsafe.Pointer)(unsafe.Pointer(&ch)), cap(ch), len(ch), true)
-	if mode == cmActive {
+	switch mode {
+	case cmMust:
+		select {
+		case v, ok = <-ch:
+			return v, ok, true
+		default:
+			mismatch("select-receive", ch, len(ch), cap(ch))
+		}
+	case cmActive:
 		v, ok = <-ch
 		return v, ok, true
 	}
